@@ -416,7 +416,20 @@ This command wraps "go %s". Below is its help:
 	}
 	sharedCache.BinaryContentID = decodeBuildIDHash(splitContentID(binaryBuildID))
 
-	if err := appendListedPackages(args, true); err != nil {
+	listArgs := args
+	if command == "run" {
+		// Like "go run", the package is either the leading list of .go files
+		// or the first argument; the rest are arguments for the program.
+		n := 0
+		for n < len(listArgs) && strings.HasSuffix(listArgs[n], ".go") {
+			n++
+		}
+		if n == 0 && len(listArgs) > 0 {
+			n = 1
+		}
+		listArgs = listArgs[:n:n]
+	}
+	if err := appendListedPackages(listArgs, true); err != nil {
 		return nil, err
 	}
 
